@@ -1,5 +1,6 @@
 // L-trace + L-api harness for dispatch_apply (C10): iteration counts {0,1,2,cpus-1,cpus,cpus+1,100,1000,20000}, targets
-// {DISPATCH_APPLY_AUTO, global, custom serial, custom concurrent, serial chain, concurrent -> concurrent chain}, nesting up
+// {DISPATCH_APPLY_AUTO, global, custom serial, custom concurrent, serial chain, concurrent -> concurrent chain, concurrent ->
+// thread-bound main queue drained run-loop style by the main thread}, nesting up
 // to depth 3, several applies racing from different threads, barriers racing with applies on the concurrent queue.
 // Oracle: every index invoked exactly once, no other value, return only after all invocations finished, index order and
 // no overlap on serial targets, no overlap with a barrier of the target. Atomic transitions of _dispatch_apply_invoke2 recorded.
@@ -12,6 +13,7 @@
 #include <string.h>
 #include <unistd.h>
 #include <pthread.h>
+#include <poll.h>
 #include <sched.h>
 #include <stdatomic.h>
 #include <sys/syscall.h>
@@ -43,11 +45,13 @@ static void work(void *c, size_t i){ struct app *a=c; atomic_fetch_add(&invocati
   if(a->depth<2 && a->n<=8 && rnd()%4==0) do_apply((int)(rnd()%2), rnd()%5, a->depth+1);   // nested apply (AUTO / global only: a nested apply onto the custom queue it runs on, with a barrier in between, is a client wait-for cycle)
   if(rnd()%8==0) sched_yield();
   atomic_fetch_sub(&a->running,1); atomic_fetch_add(&a->finished,1); }
-static dispatch_queue_t QS, QC, QSS, QCC; static _Atomic int bar_c; static _Atomic long chain_barriers, chain_barriers_ran;
+extern void _dispatch_main_queue_callback_4CF(void *msg);
+extern int _dispatch_get_main_queue_handle_4CF(void);
+static dispatch_queue_t QS, QC, QSS, QCC, QCM; static atomic_int clients_done; static _Atomic int bar_c; static _Atomic long chain_barriers, chain_barriers_ran;
 static void do_apply(int kind, size_t n, int depth){ struct app a; memset(&a,0,sizeof a); a.n=n; a.kind=kind; a.depth=depth; a.cnt=calloc(n+1,1); atomic_store(&a.last,-1);
   dispatch_queue_t q;
   switch(kind){ case 0: q=DISPATCH_APPLY_AUTO; break; case 1: q=(dispatch_queue_t)dispatch_get_global_queue(0,0); break;
-    case 2: q=QS; a.serial=1; break; case 3: q=QC; a.barrier_running=&bar_c; break; case 4: q=QSS; a.serial=1; break; default: q=QCC; break; }
+    case 2: q=QS; a.serial=1; break; case 3: q=QC; a.barrier_running=&bar_c; break; case 4: q=QSS; a.serial=1; break; case 6: q=QCM; a.serial=1; break; default: q=QCC; break; }
   // a serial target reached from inside one of its own items would deadlock (client wait-for cycle): nested applies avoid serial targets
   if(depth>0 && a.serial){ q=DISPATCH_APPLY_AUTO; a.serial=0; a.kind=0; }
   if(depth>0 && kind==3){ a.barrier_running=NULL; }
@@ -57,18 +61,21 @@ static void do_apply(int kind, size_t n, int depth){ struct app a; memset(&a,0,s
   free((void*)a.cnt); }
 static int ncpu; static int rounds;
 static size_t pick_n(void){ size_t c[]={0,1,2,(size_t)ncpu-1,(size_t)ncpu,(size_t)ncpu+1,3,7,100,1000,20000}; return c[rnd()%11]; }
-static void *client(void *x){ (void)x; for(int r=0;r<rounds && !viol;r++){ int kind=(int)(rnd()%6); do_apply(kind,pick_n(),0);
+static void *client(void *x){ (void)x; for(int r=0;r<rounds && !viol;r++){ int kind=(int)(rnd()%7); do_apply(kind,pick_n(),0);
     if(rnd()%5==0){ dispatch_barrier_async(QC,^{ atomic_store(&bar_c,1); for(volatile int k=0;k<3000;k++){} atomic_store(&bar_c,0); }); }
     // barriers on the chained queues too: width that an apply failed to give back on an upper level shows as a barrier (and
     // everything behind it) that never runs
-    if(rnd()%4==0){ atomic_fetch_add(&chain_barriers,1); dispatch_barrier_async(rnd()%2?QSS:QCC,^{ atomic_fetch_add(&chain_barriers_ran,1); }); } } return NULL; }
+    if(rnd()%4==0){ atomic_fetch_add(&chain_barriers,1); dispatch_barrier_async(rnd()%2?QSS:QCC,^{ atomic_fetch_add(&chain_barriers_ran,1); }); } } atomic_fetch_add(&clients_done,1); return NULL; }
 int main(int argc,char**argv){ seed=argc>1?strtoull(argv[1],0,0):1; rounds=argc>2?atoi(argv[2]):40; ncpu=(int)sysconf(_SC_NPROCESSORS_ONLN);
   evs=calloc(MAXEV,sizeof *evs);
   QS=dispatch_queue_create("s",NULL); QC=dispatch_queue_create("c",DISPATCH_QUEUE_CONCURRENT);
   dispatch_queue_t s2=dispatch_queue_create("s2",NULL); QSS=dispatch_queue_create_with_target("ss",DISPATCH_QUEUE_CONCURRENT,s2);   // concurrent queue targeting a serial one
   dispatch_queue_t c2=dispatch_queue_create("c2",DISPATCH_QUEUE_CONCURRENT); QCC=dispatch_queue_create_with_target("cc",DISPATCH_QUEUE_CONCURRENT,c2);
+  // a concurrent queue whose target is the thread-bound main queue, which the main thread drains the way a run loop does
+  QCM=dispatch_queue_create_with_target("cm",DISPATCH_QUEUE_CONCURRENT,dispatch_get_main_queue()); int mh=_dispatch_get_main_queue_handle_4CF();
   _dispatch_verif_yield_cb=ycb; _dispatch_verif_atomic_cb=cb;
   pthread_t th[4]; int nt=3; for(int i=0;i<nt;i++) pthread_create(&th[i],0,client,0);
+  while(atomic_load(&clients_done)<nt){ struct pollfd pf={mh,POLLIN,0}; poll(&pf,1,2); _dispatch_main_queue_callback_4CF(NULL); }
   for(int i=0;i<nt;i++) pthread_join(th[i],0);
   dispatch_barrier_sync(QC,^{});
   for(int w=0; w<10000 && atomic_load(&chain_barriers_ran)<atomic_load(&chain_barriers); w++) usleep(1000);
